@@ -12,3 +12,25 @@ pub assume_specification [f64::is_nan] (x: f64) -> (r: bool)
 pub fn vf_assert(c: bool)
     requires c
 { assert!(c) }
+
+// `f64::EPSILON` (associated const, not supported by this Verus build): rewritten (R12) to vf_f64_epsilon().
+// ASSUMED std contract: the value is 2^-52.
+#[verifier::external_body]
+pub fn vf_f64_epsilon() -> (r: f64)
+    ensures rv(r) == 1real / 4503599627370496real
+{ f64::EPSILON }
+
+// R1b targets on a slice (`let values = self.domain.values(); values.partition_point(|v| *v < x)`): same ASSUMED std
+// contract as vf_partition_point_lt / _le in prelude/f64.rs, stated for `&[f64]`.
+#[verifier::external_body]
+pub fn vf_partition_point_lt_slice(s: &[f64], x: f64) -> (r: usize)
+    requires sorted(s@)
+    ensures r <= s@.len(), forall|j: int| 0 <= j < r ==> rv(#[trigger] s@[j]) < rv(x), forall|j: int| r <= j < s@.len() ==> rv(#[trigger] s@[j]) >= rv(x)
+{ unimplemented!() }
+#[verifier::external_body]
+pub fn vf_partition_point_le_slice(s: &[f64], x: f64) -> (r: usize)
+    requires sorted(s@)
+    ensures r <= s@.len(), forall|j: int| 0 <= j < r ==> rv(#[trigger] s@[j]) <= rv(x), forall|j: int| r <= j < s@.len() ==> rv(#[trigger] s@[j]) > rv(x)
+{ unimplemented!() }
+// `a.max(b)` / `a.min(b)` on usize (core::cmp::Ord): rewritten (R12) where the operands are index expressions
+pub fn vf_max_usize(a: usize, b: usize) -> (r: usize) ensures r == (if a >= b { a } else { b }) { if a >= b { a } else { b } }
